@@ -86,6 +86,14 @@ func init() {
 					l1(lp.prop, tier, "history", k, 2, 2, lp.mw, 1, 0),
 					l1(lp.prop, tier, "lifecycle-crash", 2, 2, 2, lp.mw, 1, 1),
 				}
+				if lp.prop == 5 {
+					hs = append(hs, HarnessSpec{Name: "crash-and-restart-under-concurrent-senders", Pkg: "actor", Func: "ZZ_L2", Preempt: 2,
+						Params: pm("prop", 5, "T", 2, "M", 2, "crash", 1), Witnesses: []string{"restart"}, Deadline: 40 * time.Minute})
+				}
+				if lp.prop == 7 {
+					hs = append(hs, HarnessSpec{Name: "poison-caller-waits-among-concurrent-senders", Pkg: "actor", Func: "ZZ_L2", Preempt: 2,
+						Params: pm("prop", 7, "T", 2, "M", 2, "crash", 0), Witnesses: []string{"poison-accepted"}, Deadline: 40 * time.Minute})
+				}
 				if lp.prop == 4 {
 					hs = append(hs, HarnessSpec{Name: "spawn-races-with-senders", Pkg: "actor", Func: "ZZ_L2", Preempt: 2,
 						Params: pm("prop", 4, "T", 2, "M", 2, "crash", 0), Witnesses: []string{"send-before-registration", "partially-accepted"}, Deadline: 30 * time.Minute})
@@ -95,7 +103,7 @@ func init() {
 			Bounds: func(tier string) string {
 				return fmt.Sprintf("histories of <= %d operations (send / deliver batch / Poison / Stop) plus final drain, arbitrary batch splits, <= 2 panics (symbolic crash flag per message; lifecycle-handler panics in the second harness), MaxRestarts 0..2, middleware chain 0..%d", tierSel(tier, 4, 5), lp.mw)
 			},
-			Outside:     []string{"longer histories / more panics", "real Inbox scheduling (covered by C01-C03 harnesses)", "children (C08)"},
+			Outside:     []string{"longer histories / more panics", "real Inbox scheduling for the history harnesses (C05 adds a threaded harness: spawner + 2 senders x 2 messages on the real Inbox, one symbolic crash, preemption bound 2; C01-C03 cover the inbox itself)", "children (C08)"},
 			Assumptions: append([]string{"L1 process unit: real process/Registry/Engine.send paths on a bare engine; the inbox is a fake that mirrors Inbox.Start/Stop and lets the harness choose every batch split; event stream is a synchronous recording sink"}, commonAssumptions...),
 		})
 	}
